@@ -1,9 +1,16 @@
 """Harness table: which proof harnesses decide which property, in which tier, and what each one
 encodes.  The text here is copied into the evidence file of every run."""
 
-def H(name, tier="quick", functions=(), domain="", bound="", assume=(), solver="cadical", timeout=900, draws=""):
-    return {"name": name, "tier": tier, "functions": list(functions), "domain": domain, "bound": bound,
-            "assume": list(assume), "solver": solver, "timeout": timeout, "draws": draws}
+def H(name, tier="quick", functions=(), domain="", bound="", assume=(), solver="cadical", timeout=900, draws="", fallback=None, unwind=0):
+    d = {"unwind": unwind, "name": name, "tier": tier, "functions": list(functions), "domain": domain, "bound": bound,
+         "assume": list(assume), "solver": solver, "timeout": timeout, "draws": draws}
+    if fallback:
+        d["fallback"] = fallback
+    return d
+
+# canonical draws (A K Q J T of spades, 2c, 3d; table placeholder; k = 1) used to start the native concretisation
+# family of an S5 harness when the solver run was inconclusive
+FB = [12, 3, 11, 3, 10, 3, 9, 3, 8, 3, 0, 0, 1, 1, 0, 1]
 
 TABLE = {}
 PROPERTY_META = {}
@@ -341,9 +348,9 @@ S5NOTE = ["S5: <Five as HandRanker>::hand_rank_value_and_hand replaced by an uni
 SIXSEVEN = ["hand_rank_value_and_hand", "HandRanker::hand_rank_value (default)", "Permutator::five_from_permutation", "FIVE_CARD_PERMUTATIONS", "Five::sort (core sort_unstable + reverse)"]
 # ---------------------------------------------------------------- C02 / C03
 C02_ABS = [
-    H("c02_seven", timeout=1800, functions=["Seven::" + x for x in SIXSEVEN], domain="seven distinct real cards, any slot order; every five-card evaluator satisfying S5",
+    H("c02_seven", fallback=FB, unwind=130, timeout=1800, functions=["Seven::" + x for x in SIXSEVEN], domain="seven distinct real cards, any slot order; every five-card evaluator satisfying S5",
       bound="whole domain; unwind 130 (harness enumerates all 128 slot masks itself)", assume=S5NOTE, draws="(r,s)*7, then T (ignored natively)"),
-    H("c02_six", timeout=1800, functions=["Six::" + x for x in SIXSEVEN], domain="six distinct real cards, any slot order; every five-card evaluator satisfying S5",
+    H("c02_six", fallback=FB, unwind=66, timeout=1800, functions=["Six::" + x for x in SIXSEVEN], domain="six distinct real cards, any slot order; every five-card evaluator satisfying S5",
       bound="whole domain; unwind 66", assume=S5NOTE, draws="(r,s)*7 (first six used), then T"),
 ]
 C02_REAL = [
@@ -370,9 +377,9 @@ PROPERTY_META["C03"] = {
 }
 # ---------------------------------------------------------------- C09
 TABLE["C09"] = [
-    H("c09_seven_vs_six", timeout=2400, functions=["Seven::hand_rank_value", "Six::hand_rank_value"] + ["Six/Seven::" + x for x in SIXSEVEN[2:]],
+    H("c09_seven_vs_six", fallback=FB, timeout=2400, functions=["Seven::hand_rank_value", "Six::hand_rank_value"] + ["Six/Seven::" + x for x in SIXSEVEN[2:]],
       domain="seven distinct real cards, any order, all seven six-card sub-hands; S5 evaluator", bound="whole domain; unwind 23", assume=S5NOTE, draws="(r,s)*7, then T"),
-    H("c09_six_vs_five", timeout=1800, functions=["Six::hand_rank_value", "Five::hand_rank_value (stub)"], domain="six distinct real cards, any order, all six five-card sub-hands; S5 evaluator",
+    H("c09_six_vs_five", fallback=FB, timeout=1800, functions=["Six::hand_rank_value", "Five::hand_rank_value (stub)"], domain="six distinct real cards, any order, all six five-card sub-hands; S5 evaluator",
       bound="whole domain; unwind 14", assume=S5NOTE, draws="(r,s)*7 (first six used), then T"),
 ]
 PROPERTY_META["C09"] = {
@@ -380,12 +387,17 @@ PROPERTY_META["C09"] = {
     "outside": "as C02 (S5 abstraction of the five-card evaluator)",
     "assumptions": COMMON_ASSUME + S5NOTE,
 }
-# C06: add the wiring of hand_rank()/hand_rank_validated() to the value
-TABLE["C06"] += WIRING(validated=())
+# C06: add the wiring of hand_rank()/hand_rank_validated() to the value, and the real-evaluator link cards -> class
+TABLE["C06"] += WIRING(validated=()) + [
+    H("c06_hand_class_distinct_ranks", solver="kissat", timeout=1800, functions=["Five::hand_rank (REAL evaluator, FLUSHES / UNIQUE_5 path)", "HandRank::from", "determine_name", "determine_class"],
+      domain="five distinct cards with five distinct ranks, any slot order", bound="whole domain; unwind 14", draws="(r,s)*5"),
+    H("c06_hand_class_paired_sorted", tier="thorough", solver="kissat", timeout=2400, functions=["Five::hand_rank (REAL evaluator, product path)", "HandRank::from"],
+      domain="five distinct cards with a repeated rank, descending slot order", bound="whole domain; unwind 14", draws="(r,s)*5"),
+]
 # C08: six/seven value under shift
 TABLE["C08"] += [
-    H("c08_value_shift_seven", timeout=1800, functions=["<Seven as Shifty>::shift_suit", "Seven::hand_rank_value"], domain="seven distinct real cards, any order, the three non-trivial shifts",
+    H("c08_value_shift_seven", fallback=FB, timeout=1800, functions=["<Seven as Shifty>::shift_suit", "Seven::hand_rank_value"], domain="seven distinct real cards, any order, the three non-trivial shifts",
       bound="whole domain; unwind 23", assume=S5NOTE + ["shift variant: the evaluator's value depends only on the set of base cards when all five are shifted uniformly (five-card invariance is decided on the real evaluator by c08_value_*)"], draws="(r,s)*7, T, k:u8"),
-    H("c08_value_shift_six", timeout=1800, functions=["<Six as Shifty>::shift_suit", "Six::hand_rank_value"], domain="six distinct real cards, any order, the three non-trivial shifts",
+    H("c08_value_shift_six", fallback=FB, timeout=1800, functions=["<Six as Shifty>::shift_suit", "Six::hand_rank_value"], domain="six distinct real cards, any order, the three non-trivial shifts",
       bound="whole domain; unwind 14", assume=S5NOTE, draws="(r,s)*7 (first six used), then T"),
 ]
